@@ -39,9 +39,12 @@ Pick2(S) == IF Mode = "sim" THEN RandomSubset(2, S) ELSE S     \* two candidates
 MkEnv(x, p, t, V) == [x |-> x, p |-> p, t |-> t, V |-> V]
 Env1 == MkEnv(<<I(2), I(3), R(1, 2)>>, <<R(1, 2), I(2), I(-3)>>, R(1, 4), I(2))
 Env2 == MkEnv(<<I(0), I(1), R(5, 2)>>, <<I(3), R(1, 10), I(1)>>, I(2), R(1, 2))
-ExhEnvs == {Env1, Env2}
+Env3 == MkEnv(<<I(-2), I(1), R(-3, 2)>>, <<I(2), R(1, 2), I(1)>>, I(1), R(3, 2))
+ExhEnvs == {Env1, Env2, Env3}
 ExhEnv1 == {Env1}
-XG == {I(0), I(1), I(2), I(3), I(5), R(1, 2), R(5, 2), R(1, 4), I(10)}
+\* species values include negative ones: a read-out species kept at A - B by a rule, or a state handed to
+\* py_get_propensity, may be negative, and abs / min / max / Heaviside must not be simplified away
+XG == {I(0), I(1), I(2), I(3), I(5), R(1, 2), R(5, 2), R(1, 4), I(10), I(-2), R(-3, 2)}
 PG == {I(1), I(2), I(3), R(1, 2), R(1, 10), R(3, 2), I(-1), R(-1, 2), I(4)}
 TG == {I(0), R(1, 4), I(1), R(5, 2), I(8)}
 VG == {R(1, 2), I(1), I(2), I(3), R(3, 2)}
